@@ -44,6 +44,7 @@ type Clause struct {
 type LoopSpec struct {
 	Entry      []*Clause // assertions checked when the loop is first reached (not maintained)
 	Invariants []*Clause
+	Steps      []*Clause // per-iteration transition obligations (athead)
 	Modifies   []*Clause // nil = everything the body may write (inferred families)
 	HasMod     bool
 }
@@ -554,6 +555,12 @@ func (cs *ContractSet) parseFile(fset *token.FileSet, f *ast.File, pkgPath, file
 							if c := mkClause(rest3); c != nil {
 								ls.Entry = append(ls.Entry, c)
 							}
+						case "step":
+							// a two-state obligation per iteration (athead(e) is the value at the head of the iteration);
+							// proved at every back edge, never assumed
+							if c := mkClause(rest3); c != nil {
+								ls.Steps = append(ls.Steps, c)
+							}
 						case "modifies":
 							ls.HasMod = true
 							for _, it := range splitTop(rest3, ",") {
@@ -679,6 +686,7 @@ func propagateProps(c *Contract) {
 	for _, l := range c.Loops {
 		all = append(all, l.Entry...)
 		all = append(all, l.Invariants...)
+		all = append(all, l.Steps...)
 	}
 	for _, f := range c.Folds {
 		all = append(all, f.Invariants...)
